@@ -990,6 +990,16 @@ def normalise_cfg(g, outputs, notes, keep_vars=(), lang=None):
                 n.kind = 'nop'
                 n.succ = [n.succ[0] if n.stmt[1][1] != 0 else n.succ[1]]
                 changed = True
+            if n.kind == 'branch' and n.stmt[1][0] == 'op' and n.stmt[1][1] == '?:' and len(n.stmt[1]) == 5 and _pure(n.stmt[1]):
+                # if (c ? a : b)  ==  if (c) { if (a) ... } else { if (b) ... }
+                c_, a_, b_ = n.stmt[1][2:]
+                na = g.new('branch', ('branch', a_) + tuple(n.stmt[2:]), n.line)
+                nb_ = g.new('branch', ('branch', b_) + tuple(n.stmt[2:]), n.line)
+                na.succ = list(n.succ)
+                nb_.succ = list(n.succ)
+                n.stmt = ('branch', c_) + tuple(n.stmt[2:])
+                n.succ = [na.id, nb_.id]
+                changed = True
             if n.kind == 'branch' and n.succ[0] != n.succ[1]:
                 # if (v == k1) goto X; if (v == k2) goto Y; goto X   ==   if (v == k2) goto Y; goto X   (k1 != k2)
                 e1 = _eq_lit(n.stmt[1])
